@@ -20,6 +20,7 @@ import (
 	"github.com/FollowTheProcess/spok/logger"
 	"github.com/FollowTheProcess/spok/shell"
 	"github.com/FollowTheProcess/spok/task"
+	"github.com/FollowTheProcess/spok/verifhook"
 	"github.com/bmatcuk/doublestar/v4"
 	"github.com/lithammer/fuzzysearch/fuzzy"
 	"golang.org/x/exp/maps"
@@ -201,6 +202,7 @@ func (s *SpokFile) run(stream iostream.IOStream, runner shell.Runner, force bool
 		if err := cache.Init(cachePath, maps.Keys(s.Tasks)...); err != nil {
 			return nil, err
 		}
+		verifhook.At("cache.init")
 	}
 
 	cachedState, err := cache.Load(cachePath)
@@ -208,12 +210,15 @@ func (s *SpokFile) run(stream iostream.IOStream, runner shell.Runner, force bool
 		return nil, fmt.Errorf("Could not load spok cache file at %q: %s", cachePath, err)
 	}
 
+	verifhook.At("cache.loaded")
+
 	// Whether or not we want to update the cache after running e.g.
 	// if there were no file dependencies to update or if the task
 	// did not succeed
 	updateCache := true
 
 	for _, taskToRun := range runOrder {
+		verifhook.At("task.begin", "task", taskToRun.Name)
 		// Gather up all the files to be hashed into a single slice
 		var toHash []string
 
@@ -249,6 +254,7 @@ func (s *SpokFile) run(stream iostream.IOStream, runner shell.Runner, force bool
 			return nil, err
 		}
 		s.logger.Debug("Calculated digest of %d files in %v", len(toHash), time.Since(hashStart))
+		verifhook.At("task.hashed", "task", taskToRun.Name)
 
 		// By the time we get here, we know the cache file will exist (even if it has no digests)
 		// so we can go ahead and load as normal. If a task is not in the cache, it means it was
@@ -270,16 +276,19 @@ func (s *SpokFile) run(stream iostream.IOStream, runner shell.Runner, force bool
 			if updateCache {
 				cachedState.Set(taskToRun.Name, currentDigest)
 			}
+			verifhook.At("task.before-exec", "task", taskToRun.Name)
 			result, err = taskToRun.Run(runner, stream, s.Env())
 			if err != nil {
 				return nil, fmt.Errorf("Task %q encountered an error: %w", taskToRun.Name, err)
 			}
+			verifhook.At("task.after-exec", "task", taskToRun.Name)
 
 		case currentDigest == cachedDigest:
 			// This task has been run before and its digest has not changed, therefore
 			// we don't need to run it again
 			skipped = true
 			updateCache = false
+			verifhook.At("task.skip", "task", taskToRun.Name)
 		}
 
 		// Gather up all the task results
@@ -290,9 +299,11 @@ func (s *SpokFile) run(stream iostream.IOStream, runner shell.Runner, force bool
 	// and the task run was successful
 	if !force && updateCache && results.Ok() {
 		s.logger.Debug("Updating cached state")
+		verifhook.At("cache.before-dump")
 		if err := cachedState.Dump(cachePath); err != nil {
 			return nil, err
 		}
+		verifhook.At("cache.after-dump")
 	}
 
 	return results, nil
